@@ -172,7 +172,8 @@ def num_json(value, implicit):
 def dump_tree(t):
     """luqum item -> JSON-able dict (class, own attributes, layout, name, children)"""
     T = impl().tree
-    cls = type(t).__name__
+    # (a node of a user-defined subclass counts as its luqum class: trees.user_subclasses)
+    cls = next((c.__name__ for c in type(t).__mro__ if c.__module__ == "luqum.tree"), type(t).__name__)
     d = {"c": cls, "h": t.head, "t": t.tail, "p": t.pos, "s": t.size,
          "n": getattr(t, "_luqum_name", None)}
     if isinstance(t, T.Term):
